@@ -287,6 +287,29 @@ class C04:
                     ctx.violate("PROTO version handling", line, want, g)
         for s in [lines[i] + " -> " + go[i] for i in range(0, len(lines), max(1, len(lines) // 10))][:10]:
             ctx.sample(s)
+        # one Decoder, several pickles: what a call leaves behind (a MARK below its result, operands, a memo entry, an error half way)
+        # must not make a later call panic - every ordered pair and sampled triples of short pickles, total for any input as alone
+        small = [b"(N.", b"((N.", b"(K\x01N.", b"N(N.", b"(K\x01K\x02(N.", b"N.", b"t.", b"l.", b"d.", b"e.", b"u.", b"a.", b"s.", b"(t.", b"(l.", b"K\x01t.",
+                 b"K\x01K\x02K\x03e.", b"]K\x01e.", b"}K\x01K\x02u.", b"(K\x01K\x02t.", b"]q\x00.", b"h\x00.", b"h\x00K\x01a.", b"(.", b"((.", b"0.", b"1.", b"2.",
+                 b"\x85.", b"K\x01\x85.", b"(K\x01", b"\x80\x02(N.", b"\x80\x09(N.", b"(\xff", b"Q.", b"NQ.", b"R.", b"(I1\n", b"q\xff.", b"Nq\xff.", b"h\xff."]
+        slines = [f"decs {ctx.rng.choice(CFGS)} - {hexs(a + b)}" for a in small for b in small]
+        for _ in range(ctx.scale(1500, 20000)):
+            slines.append(f"decs {ctx.rng.choice(CFGS)} - {hexs(b''.join(ctx.rng.choice(small) for _ in range(ctx.rng.randint(3, 6))))}")
+        sgo, slean = run_both(slines)
+        for line, g, l in zip(slines, sgo, slean):
+            ctx.evaluations += 1
+            ctx.count("kind:stream")
+            # after an error in the middle of a pickle the two sides resume at different offsets: compared up to the first such error
+            def upto(ans):
+                out = []
+                for x in ans.split(" | "):
+                    out.append(x)
+                    if x.startswith("ERR") and x not in ("ERR eof",):
+                        break
+                return " | ".join(out)
+            ctx.tie(line, upto(g), upto(l))
+            if "PANIC" in g or g.startswith("CRASH"):
+                ctx.violate("Decode panicked / crashed on a later pickle of a stream", line, "a value or an error for each call", g[:400])
         # supported-opcode table measured on the implementation vs the model (behavioural fact)
         sup_go = sorted(k for k in range(256) if go[lines.index(f"dec 00 - {hexs(bytes([k]))}")] != f"ERR opcode:{k}")
         sup_lean = sorted(k for k in range(256) if lean[lines.index(f"dec 00 - {hexs(bytes([k]))}")] != f"ERR opcode:{k}")
@@ -489,8 +512,15 @@ class C10:
         valid = [(cfg, data) for (cfg, data, k), g in zip(meta, go)
                  if k is None and g.startswith("OK ") and g.split(" ")[1] == str(len(data)) and 2 <= len(data) <= 300]
         rng.shuffle(valid)
+        # both pickles of a pair are ones that decode under the SAME configuration (a dict keyed by a tuple is a valid pickle with PyDict
+        # only: under the other configuration its prefix fails before the cut, which is no statement about truncation)
+        pairs = []
+        for c4 in CFGS:
+            same = [v for v in valid if v[0] == c4]
+            pairs += list(zip(same, same[1:]))
+        rng.shuffle(pairs)
         slines, smeta = [], []
-        for (cfg, a), (_, b) in zip(valid[: ctx.scale(150, 2000)], valid[1:]):
+        for (cfg, a), (_, b) in pairs[: ctx.scale(150, 2000)]:
             for k in sorted({0, 1, len(b) // 2, len(b) - 1}):
                 slines.append(f"decs {cfg} - {hexs(a + b[:k])}")
                 smeta.append((a, b, k, 1))
@@ -682,7 +712,7 @@ class C11:
         single = {}
         # every ordered pair (and some triples) of short pickles that leave operands / a MARK behind, fail at their
         # STOP, or reach below their own pushes: what one call leaves must never reach the next
-        small = [b".", b"(.", b"I1\n(.", b"((.", b"K\x01K\x02(.", b"]}(.", b"K\x07.", b"t.", b"a.", b"0.", b"2.", b"N.", b"(l.",
+        small = [b"(N.", b"((N.", b"(K\x01N.", b".", b"(.", b"I1\n(.", b"((.", b"K\x01K\x02(.", b"]}(.", b"K\x07.", b"t.", b"a.", b"0.", b"2.", b"N.", b"(l.",
                  b"\x85.", b"\x86.", b"s.", b"e.", b"u.", b"d.", b"K\x01K\x02.", b"\x80\x03N.", b"Q.", b"R.", b"\x94.", b"q\x00."]
         streams = [[a, b] for a in small for b in small]
         streams += [[rng.choice(small) for _ in range(3)] for _ in range(ctx.scale(300, 3000))]
@@ -757,6 +787,14 @@ class C11:
             for f in fulls:
                 streams.append([f, e])
                 streams.append([f, e, f, e])
+        # an EMPTY container is returned, then a later pickle builds a container of the same kind in place (EMPTY_DICT + SETITEM(S),
+        # EMPTY_LIST + APPEND(S)): the object already handed out stays empty
+        empt = [b"}.", b"].", b").", b"\x80\x02}q\x00.", b"]q\x00.", b"(d.", b"(l.", b"(}]t."]
+        fill = [b"}K\x01K\x02s.", b"}(K\x01K\x02u.", b"]K\x01a.", b"](K\x01K\x02e.", b"}q\x00K\x01K\x02s.", b"(K\x01K\x02d.", b"}(U\x01aK\x02K\x03K\x04u.",
+                b"]q\x00K\x07a."]
+        for e in empt:
+            for f in fill:
+                streams += [[e, f], [e, f, e], [e, e, f, f], [f, e, f]]
         # classes whose module / name pairs differ only in where the boundary lies ("os.path" "join" / "os" "path.join"), in every
         # spelling (GLOBAL text, STACK_GLOBAL, as the callable of a call): what one pickle named must not be handed to the next
         names = [(b"os.path", b"join"), (b"os", b"path.join"), (b"a", b"b.c"), (b"a.b", b"c"), (b"a b", b"c"), (b"a", b"b c"), (b"", b"a.b"),
@@ -938,11 +976,11 @@ class C14:
             for _ in range(4):
                 cuts = sorted(rng.randint(0, 50) for _ in range(rng.randint(2, 8)))
                 scheds.append(("e" if rng.random() < 0.5 else "") + ",".join(str(c) for c in cuts) + f",{rng.choice([1, 2, 5, 4096])}*")
-            flat.append(f"decs {cfg} - {hexs(data)}")
+            flat.append(f"decsp {cfg} - {hexs(data)}")       # errors with their position: that, too, must not depend on the delivery
             if data in k1_progs:
                 k1_idx.add(len(flat) - 1)
             for s in scheds:
-                sched_lines.append(f"decr {cfg} {s} {hexs(data)}")
+                sched_lines.append(f"decrp {cfg} {s} {hexs(data)}")
                 meta.append((len(flat) - 1, cfg, s, data))
         lean = C.run_sharded(C.run_lean, flat)
         goflat = C.run_sharded(C.run_go, flat)
@@ -1292,7 +1330,7 @@ class C18:
             meta.append(("dec", "F" + lines[-1].split(" ")[2][1:]))
         for v, pd, su in self.graphs(ctx, ctx.scale(500, 10000)):
             p = rng.randint(0, 5)
-            rh = rng.choice(["-", "S", "S", "T", "N", "E"])
+            rh = rng.choice(["-", "S", "S", "T", "N", "E", "B", "B"])      # B: string ids that are not valid UTF-8
             lines.append(f"enc {p} {int(su)} {rh} {V.render(v, sort=False)}")
             meta.append(("enc", (rh, p, v, pd, su)))
         # a mapped object in every kind of container, with hooks whose ids protocol 0 cannot write: the error must surface
@@ -1368,7 +1406,7 @@ class C18:
                 if kind == "enc" and rh.startswith("-") and "PANIC" in g:
                     ctx.violate("Encode panicked", line[:600], "bytes or error", g[:200])
                 ctx.count(f"refhook={rh}:p{p}:{g.split(' ')[0]}{(':' + g.split(' ')[1]) if g.startswith('ERR') else ''}")
-                if rh == "S" and g.startswith("OK "):
+                if rh in ("S", "B") and g.startswith("OK "):
                     data = bytes.fromhex("".join(c for c in g[3:].split(",") if c != "-"))
                     # inverse hook: ids "id<n>" map back to object n -> decode must restore the graph
                     rt_lines.append((data, v, p, pd, su))
